@@ -304,3 +304,24 @@ pub fn utf8_ok_c3a9(b: &[u8]) -> bool {
     }
     ok
 }
+
+// ---------------------------------------------------------------------------------------------
+// util::buffer_with uses `thread_local!` with a destructor; registering the destructor goes
+// through a weak libc symbol that CBMC leaves undefined. Model: one process-wide RefCell with the
+// same borrow semantics (single thread), so the "already borrowed -> recursive logging" branch of
+// the callers stays reachable.
+static mut TLBUF: Option<std::cell::RefCell<Vec<u8>>> = None;
+pub fn buffer_with_model<F>(f: F)
+where
+    F: FnOnce(&std::cell::RefCell<Vec<u8>>),
+{
+    unsafe {
+        if TLBUF.is_none() {
+            TLBUF = Some(std::cell::RefCell::new(Vec::with_capacity(200)));
+        }
+        f(TLBUF.as_ref().unwrap())
+    }
+}
+pub fn tlbuf_len() -> usize {
+    unsafe { TLBUF.as_ref().map_or(0, |c| c.borrow().len()) }
+}
